@@ -54,6 +54,15 @@ func (r RevalidationContext) ToMisc(ccResp CCResponseDirectives) MiscFunc {
 	})
 }
 
+// clientPreconditionForwarded reports whether a precondition of the client's
+// own went upstream because the stored response has no validator of that kind
+// to replace it. A 304 may then be about the client's copy and says nothing
+// about the stored response: it is the origin's answer to the client.
+func clientPreconditionForwarded(req *http.Request, stored http.Header) bool {
+	return (req.Header.Get("If-None-Match") != "" && stored.Get("ETag") == "") ||
+		(req.Header.Get("If-Modified-Since") != "" && stored.Get("Last-Modified") == "")
+}
+
 type validationResponseHandler struct {
 	l     *Logger
 	clock Clock
@@ -80,7 +89,8 @@ func (r *validationResponseHandler) HandleValidationResponse(
 	resp *http.Response,
 	err error,
 ) (*http.Response, error) {
-	if err == nil && req.Method == http.MethodGet && resp.StatusCode == http.StatusNotModified {
+	if err == nil && req.Method == http.MethodGet && resp.StatusCode == http.StatusNotModified &&
+		!clientPreconditionForwarded(req, ctx.Stored.Data.Header) {
 		// RFC 9111 §4.3.3 Handling Validation Responses (304 Not Modified)
 		// RFC 9111 §4.3.4 Freshening Stored Responses upon Validation
 		// The age restarts from the 304: a stored Age field is only kept if
@@ -122,7 +132,7 @@ func (r *validationResponseHandler) HandleValidationResponse(
 
 	ccResp := ParseCCResponseDirectives(resp.Header)
 	switch {
-	case r.ce.CanStoreResponse(resp, ctx.CCReq, ccResp):
+	case resp.StatusCode != http.StatusNotModified && r.ce.CanStoreResponse(resp, ctx.CCReq, ccResp):
 		// RFC 9111 §4.3.3 Handling Validation Responses (full response)
 		// RFC 9111 §3.2 Storing Responses
 		_ = r.rs.StoreResponse(req, resp, ctx.URLKey, ctx.Refs, ctx.Start, ctx.End, ctx.RefIndex)
